@@ -86,18 +86,37 @@ Print Assumptions exact_accounting.
    or wrapped, context.Canceled / DeadlineExceeded under a live context, the fallback's value,
    a panic with ErrServiceUnavailable) *)
 Theorem acceptability :
-  (forall e o, e = EDo \/ e = EDoFb -> (counts_as_success e o = true <-> o = OOk)) /\
+  (* default predicate: a success iff the request returned nil *)
+  (forall e o, e = EDo \/ e = EDoFb -> (counts_as_success e o = true <-> returns_nil o = true)) /\
+  (* caller's predicate (a user callback: a function of the returned value, nil included, that may
+     look at side state): a success iff it ANSWERS true; a panic of the request or of the predicate
+     is a failure *)
   (forall e o, e = EDoAcc \/ e = EDoFbAcc ->
-     (counts_as_success e o = true <-> o = OOk \/ o = OErrA \/ o = OErrSUW \/ o = OCanceled)) /\
+     (counts_as_success e o = true <-> pred_answer o = Some true)) /\
+  (forall o, pred_answer o = Some true <-> o = OOk \/ o = OErrA \/ o = OErrSUW \/ o = OCanceled \/ o = OErrUAcc) /\
   (forall e, is_allow e = false ->
      result_of e OOk = RNil /\ result_of e OErrU = RErrU /\
      result_of e OErrA = RErrA /\ result_of e OPanic = RPanic /\
      result_of e OErrSU = RUnavailable /\ result_of e OErrSUW = RErrSUW /\
      result_of e OCanceled = RCtxDone /\ result_of e ODeadline = RDeadline /\
-     result_of e OErrFB = RFallback /\ result_of e OPanicSU = RPanicSU) /\
+     result_of e OErrFB = RFallback /\ result_of e OPanicSU = RPanicSU /\
+     result_of e OOkRej = RNil /\ result_of e OErrUAcc = RErrU) /\
   (forall o, counts_as_success EAllowAccept o = true /\ counts_as_success EAllowReject o = false).
 Proof. exact acceptability_table. Qed.
 Print Assumptions acceptability.
+
+(* ... and nil is no exception (seeded C01-11 recorded every nil return as a success without
+   asking the predicate): an admitted DoWithAcceptable / DoWithFallbackAcceptable call whose
+   request returns nil while its predicate says "unacceptable" (rest/httpc: a 5xx response
+   behind a nil error) is recorded exactly once, as a FAILURE; nil comes back, no fallback *)
+Theorem recorded_as_the_predicate_says_also_for_nil : forall cfg w c,
+  k_ctx c <> CDone -> (k_entry c = EDoAcc \/ k_entry c = EDoFbAcc) -> k_out c = OOkRej ->
+  rejected (snd (accept cfg (w_st w) (w_clock w + k_gap c) (k_u c))) = false ->
+  let w' := fst (step cfg w c) in
+  let o := snd (step cfg w c) in
+  w_marks w' = w_marks w ++ [(w_clock w + k_gap c + k_dur c, v_fail)] /\ o_res o = RNil /\ o_req o = 1 /\ o_fb o = 0.
+Proof. exact nil_rejected_by_predicate_is_failure. Qed.
+Print Assumptions recorded_as_the_predicate_says_also_for_nil.
 
 (* T2 lifted to histories: every call that reached accept() is in the log exactly once, and
    at any later time the window sums are exactly the numbers of logged calls of the last
